@@ -959,7 +959,8 @@ impl<'a> Ctx<'a> {
                 }
 
                 let Some(builtin_name) = args[0].value(self.tree) else {
-                    unreachable!()
+                    // `#builtin(.)`: the parser has already reported the missing expression
+                    break 'builtin LambdaBody::Block(self.lower_expr(None));
                 };
 
                 let literal_range = builtin_name.range(self.tree);
